@@ -11,13 +11,13 @@ CLAIMED = {
             'Static: every noexcept frame / destructor of the program (all 48 units, executor and parallel build) is proved free of '
             'input-dependent throwing paths; every character-reading loop of the lexer is proved to leave the loop when the input ends. '
             'Decides the "terminates the process / hangs on bad input" clauses structurally at every site; it does not decide assertion '
-            'trips, general memory safety or search termination. A syntax-tree node pointer handed to an owner in the parser is re-assigned before it is handed over again (no double delete at teardown). The keyed accesses of the noexcept ov_theory::new_eq range over the intersection of the two domains (C14.R2, evaluated as C18.R4).',
+            'trips, general memory safety or search termination. A syntax-tree node pointer handed to an owner in the parser is re-assigned before it is handed over again (no double delete at teardown). The keyed accesses of the noexcept ov_theory::new_eq range over the intersection of the two domains (C14.R2, evaluated as C18.R4). The name / type / predicate / method look-up chains are well-founded: the core encloses itself and its overrides of the forwarding look-ups of scope / env reach no forwarding look-up (C18.R5).',
             'Trusts clang 14 name/overload resolution and the source tables of throwing std functions and partial name look-ups listed in orv/cg.py.',
             'DESIGN.md 4 C18'),
     'C08': ('undo-log typestate over stores to backtrackable state (who-may-write table, save-before-write with same key and current value, first-write-wins, overwrite-restore, push/pop pairing)',
             'Static: every store to a backtrackable location (LRA bounds, DL distances / predecessors / responsible constraints, SAT trail vectors, flaw set and costs) in every '
             'function of the program obeys the undo-log discipline on every path; pop() restores every undo map by assignment and removes one layer. Decides the structural '
-            'necessary conditions of "undo restores exactly"; equality of all observables on arbitrary histories is not decided. The already-saved test looks up the key of the save; solver::pop restores the agenda exactly.',
+            'necessary conditions of "undo restores exactly"; equality of all observables on arbitrary histories is not decided. The already-saved test looks up the key of the save; solver::pop restores the agenda exactly. The rule pack of C07 is evaluated here too (where a backjump lands is decided by the order analyze leaves the learnt clause in).',
             'Trusts the frozen table of backtrackable fields and their reviewed writers in orv/rules/C08.py.', 'DESIGN.md 4 C08'),
     'C10': ('IDL/RDL sibling comparison of normalised path sets + decision-table and explanation-walk typestate of the DL propagation code',
             'Static: the two difference-logic theories agree method by method under the type map; the assertion/negation table of propagate(lit), the overwrite of the '
@@ -32,21 +32,21 @@ CLAIMED = {
     'C13': ('clause-schema extraction of the reified constructors compared with the Tseitin specification; freshness of the defined literal; decision table of the root shortcuts; cache-key dataflow',
             'Static, exhaustive over the finite specification: the set of clause schemas posted by new_eq/new_conj/new_disj/new_at_most_one (pairwise and product grid)/new_exct_one equals the '
             'Tseitin definition; the defined literal is fresh; the 9 root-value cells of new_eq; cache tag/key/lookup/store discipline; routing from core. The root-true arms of the cardinality '
-            'constructs and the grid arithmetic are not decided. The product grid has a cell for every literal (columns = ceil(n / rows)). The path tables of bool_item / arith_item / var_item::new_eq (TRUE_lit only for the item itself; an operand of the same kind gets the equality the sat core / theory builds, under no further test).',
+            'constructs and the grid arithmetic are not decided. The product grid has a cell for every literal (columns = ceil(n / rows)). The path tables of bool_item / arith_item / var_item::new_eq (TRUE_lit only for the item itself; an operand of the same kind gets the equality the sat core / theory builds, under no further test). The rule pack of C07 (clause and watch machinery the reified literals live in) is evaluated here too.',
             'Trusts the Tseitin specification written in orv/rules/C13.py; clause order and local names are irrelevant (roles are found structurally).', 'DESIGN.md 4 C13'),
     'C14': ('clause-schema and decision-table extraction of ov_theory; who-may-call rule for the waived exactly-one with delegation check along the call path',
             'Static: new_var binds a fresh literal per value and posts the exactly-one unit clause exactly when asked; new_eq posts exactly the clauses that make the literal mean '
-            '"same value" and handles identity / symmetry / disjoint domains / caching; allows/value tables; the only waiver (solver::new_enum) creates an exclusive, value-complete var_flaw.',
+            '"same value" and handles identity / symmetry / disjoint domains / caching; allows/value tables; the only waiver (solver::new_enum) creates an exclusive, value-complete var_flaw. The rule pack of C13 (exactly-one / equality encodings) is evaluated here too.',
             'Rests on C13 (exactly-one) and C03.R1 (flaw expansion posts at-least-one and pairwise exclusion).', 'DESIGN.md 4 C14'),
     'C11': ('four-way sibling comparison of the LRA relation builders with their table row abstracted + direct table-cell checks + dual check of lb/ub(lin) + routing check',
             'Static, exhaustive over the 4x7 table: epsilon of the right-hand side, already-true/false tests on expression and slack, constraint kind and cache-key text of new_lt/leq/geq/gt; '
             'the four builders are otherwise the same function; new_eq = geq and leq; lb/ub(lin) select bounds by coefficient sign; new_var(lin) seeds the slack from the expression; core routes by type. '
-            'The rule pack of C15 (exact lin / rational arithmetic, no zero coefficient kept, the sign printed by the sharing key to_string(lin)) is evaluated here too; full injectivity of the printed key is not decided.',
+            'The rule pack of C15 (exact lin / rational arithmetic, no zero coefficient kept, the sign printed by the sharing key to_string(lin)) is evaluated here too; full injectivity of the printed key is not decided. The rule pack of C09 is evaluated here too.',
             'Trusts the semantics of assertion(op, slack, c) established by C09.R3.', 'DESIGN.md 4 C11'),
     'C09': ('dual comparison (lb<->ub token map) of the six LRA bound routines and the two arms of check(); explanation-completeness patterns; decision table of propagate; writer table and effect patterns of pivot/update',
             'Static: upper-bound code is the exact dual of lower-bound code (so a one-sided edit is always seen); the primal explanations name every term of the row with the bound selected by the '
             'coefficient sign plus the violated bound; the epsilon table of negated assertions; tableau/watch/value writers and the arithmetic of pivot, update and pivot_and_update. '
-            'Termination of the simplex and the model property on arbitrary histories are not decided.',
+            'Termination of the simplex and the model property on arbitrary histories are not decided. The rule pack of C11 (rows and relation builders over the same tableau) is evaluated here too.',
             'One accepted asymmetry (row::propagate_ub tests lb(v) instead of lb(c_v), benign) is listed by name in orv/rules/C09.py.', 'DESIGN.md 4 C09'),
     'C15': ('symbolic field-dependency analysis with polarity of every arithmetic operator of lin / inf_rational on every path, compared with the algebra; fresh-container .at() typestate; dual/delegation patterns of rational',
             'Static: for all 45 operator paths of smt::lin and smt::inf_rational the symbolic value of each result field equals the algebra of the operator (sign, which field a scalar goes to, scaling of every '
@@ -57,12 +57,12 @@ CLAIMED = {
     'C07': ('CFG path counting (exactly-one watch re-registration on every path), decision tables of new_clause / enqueue / simplify, must-pass and ordering rules over sat_core::propagate / next / check, pattern facts of analyze and record',
             'Static: a clause never loses or duplicates its watch on any path; conflicting propagation restores the unvisited watchers; learnt clauses are stored with two watches and justify their propagation; '
             'every conflict site of sat_core::propagate fails at root and learns otherwise; theories are all checked before success; next() and check() have the required shape; the root simplification table of '
-            'new_clause; the classification of reason literals in analyze. Soundness of first-UIP learning on arbitrary trails is not decided.',
+            'new_clause; the classification of reason literals in analyze. The learnt clause leaves analyze with the asserting literal first and the deepest false literal second. Soundness of first-UIP learning on arbitrary trails is not decided.',
             'The structural facts are written for the MiniSat-style design the code follows; local names are resolved by role.', 'DESIGN.md 4 C07'),
     'C03': ('clause-schema extraction of the causal encoding (flaw expansion, resolvers, unification, activation), CFG typestate of the ni bracketing, traversal-sibling comparison of atom::new_eq/equates, polarity-dispatch rule',
             'Static: an active flaw forces one of its resolvers (exactly one for atom / bool / var flaws), a resolver implies its flaw; the unification resolver carries !sigma, sigma(target) and the field-complete equality, '
             'skips causally later / unified / non-equating targets and is causally linked; activation posts sigma and applies the inherited rules under the right controlling literal; every flaw is ordered strictly after its '
-            'causes; activation events are dispatched on the literal, not the variable. That search finds a justification is not decided. synthetic fields are only the this / return pseudo-variables; predicate::apply_rule reaches the inherited rules unconditionally; solver::pop restores the agenda exactly.',
+            'causes; activation events are dispatched on the literal, not the variable. That search finds a justification is not decided. synthetic fields are only the this / return pseudo-variables; predicate::apply_rule reaches the inherited rules unconditionally; solver::pop restores the agenda exactly; whether an atom is activated as a fact or as a goal depends on is_fact alone.',
             'Trusts C13 (new_conj), C10/C12 (IDL distances) and C14 for the literals used.', 'DESIGN.md 4 C03'),
     'C01': ('CFG reachability of solver::solve per build configuration (solution gate), must-use-result analysis of every consistency-reporting call of the program, clause-schema and who-may-write rules for asserted facts, routing tables of the exposed values',
             'Static: in every heuristic / inconsistency-checking / listener configuration (2 quick, +32 thorough) success is only reachable through the inconsistency check after the last decision and an empty agenda; no '
@@ -83,28 +83,28 @@ CLAIMED = {
     'C05': ('solution-gate CFG rule + structural rules of the reusable-resource checker: unconditional usage accumulation over all overlapping atoms, strict peak test against the instance capacity, MCS window, no-unification clause, synthetic constraints, ordering literals',
             'Static: usage is the sum of the amounts of all active overlapping Use atoms, compared strictly with the capacity of that instance; every minimal conflict set found is reported unconditionally; '
             'the extracted timeline accumulates the same way; Use atoms are never unified; capacity >= 0 and amount >= 0 are part of the synthetic constructor / predicate; ordering literals as in C04. '
-            'Optimality of the MCS enumeration is not decided. solver::new_atom reaches every smart type among all transitive supertypes; the re-check set only grows; every value-change notification of the theories goes to the listeners of the variable that changed.',
+            'Optimality of the MCS enumeration is not decided. solver::new_atom reaches every smart type among all transitive supertypes; the re-check set only grows; the atom listener also listens to sigma; every value-change notification of the theories goes to the listeners of the variable that changed.',
             'Rests on C01.R1/R2 (gate) and C11.', 'DESIGN.md 4 C05'),
     'C06': ('linear-atom normalisation of the configured INIT_STRING (LA and DL forms) against the required temporal constraints; CFG typestate of the fact arm of every smart type (set_ni / apply_rule / restore_ni); who-must-call rule for rule application',
             'Static: the temporal rule the build actually configures contains origin <= start <= end <= horizon, duration = end - start >= 0 (LA) / the DL form, and origin <= at <= horizon, for any re-ordering or superset; '
             'every path that activates an atom of a smart type or a goal applies the rule exactly once under the atom\'s sigma, inherited rules first; the synthetic predicates are Intervals. '
-            'One known finding: facts on plain predicates (design decision of oRatio). Numeric satisfaction is C01/C09. solver::new_atom reaches every smart type among all transitive supertypes; predicate::apply_rule reaches the inherited rules unconditionally.',
+            'One known finding: facts on plain predicates (design decision of oRatio). Numeric satisfaction is C01/C09. solver::new_atom reaches every smart type among all transitive supertypes; predicate::apply_rule reaches the inherited rules unconditionally; whether an atom is activated as a fact or as a goal depends on is_fact alone.',
             'The required atoms are written in orv/rules/C06.py; the DL form is read from a configure-only run because that configuration does not compile at the pinned commit.', 'DESIGN.md 4 C06'),
     'C16': ('character-path (trie) extraction of lexer::next against a keyword/punctuation oracle; symbol production/consumption cross-check; FIRST sets by abstract interpretation of the parser over the 48 token kinds; CFG typestate of the current token; '
             'precedence-table extraction; routing-chain check lexeme -> symbol -> factory -> node -> core operation',
             'Static: every keyword / operator lexeme produces the symbol the language assigns to it and nothing else does; every symbol the parser consumes is produced; no dispatch point rejects a token kind that the non-terminal it serves accepts '
             '(one-token look-ahead), no non-terminal is called on a token it rejects, no token is consumed or down-cast unexamined; the precedence levels and node kinds of all 17 operators; all 41 node factories are overridden by the '
-            'evaluable node of the same name; every node evaluates all operands in order with the core operation of its name. Two-token look-ahead (method declarations with primitive return type, call statements) and exactness of evaluated values beyond C15 are not decided. Block comments and string literals are scanned by the automata of the language (extracted from the CFG over character classes, compared with the reference DFA); a speculative look-ahead never raises the syntax error itself; the last hop core::<rel> -> theory constructor and the arithmetic of C15 are evaluated here too.',
+            'evaluable node of the same name; every node evaluates all operands in order with the core operation of its name. Two-token look-ahead (method declarations with primitive return type, call statements) and exactness of evaluated values beyond C15 are not decided. Block comments and string literals are scanned by the automata of the language (extracted from the CFG over character classes, compared with the reference DFA); a speculative look-ahead never raises the syntax error itself; the last hop core::<rel> -> theory constructor and the arithmetic of C15 are evaluated here too. Every digit of a numeral is kept (C16.R10, must-pass over the CFG of lexer::next under the digit class).',
             'The punctuation table is frozen from the RIDDLE grammar in orv/rules/C16.py; keyword lexemes are derived from the enumerator names.', 'DESIGN.md 4 C16'),
     'C17': ('traversal-completeness rules (breadth-first visit of all supertypes / included enums, no filter, no early exit), CFG ordering of the constructor phases, clause schemas of field access through object variables, sibling agreement of new_eq/equates',
             'Static: instances, atoms and predicates are registered with every transitive supertype; existential variables range over all instances, enum variables over declared plus included values; constructors run supertypes, initialiser list, '
             'defaults of unset fields and body in this order; a field read through an object variable is a derived variable tied to the field of every possible value, with mutually exclusive value groups; '
-            'non-assignable values of a formula argument are excluded; new_eq and equates analyse the same cases. Which instance a solution picks is not decided. The per-value subtype test of formula arguments has the right direction and every written argument is stored in the atom.',
+            'non-assignable values of a formula argument are excluded; new_eq and equates analyse the same cases. Which instance a solution picks is not decided. The per-value subtype test of formula arguments has the right direction and every written argument is stored in the atom. type::is_assignable_from is read in its work-list and in its recursive form (every supertype of the argument is tried).',
             'Rests on C14 (object variables) and C13 (disjunction) for the literals used.', 'DESIGN.md 4 C17'),
     'C19': ('path rules over the CFG of executor::tick with a product construction (conditional constant propagation of the delay flag, correlated look-ups, announcement markers); error-discipline, filter and clause-schema rules of the executor',
             'Static (BUILD_EXECUTOR=ON configuration): time advances exactly once per tick and outside the loop; in every iteration starting precedes start, ending precedes end; once an atom was delayed neither start / end nor the pulse erase is '
             'reachable and the iteration restarts only after propagate() and solve(); the due pulse is erased once, last; every failed bound assertion is analysed or reported; constants cannot be delayed; '
-            'build_timelines keeps active, non-past atoms; adaptation clause {!sigma, !xi, sigma_xi}. Validity of the adapted plan (C01 on the re-solved problem) and exactly-once over a whole history are not decided. The bounds stored for re-imposition after a back-jump equal the bounds imposed when an atom is delayed, started or ended.',
+            'build_timelines keeps active, non-past atoms; adaptation clause {!sigma, !xi, sigma_xi}. Validity of the adapted plan (C01 on the re-solved problem) and exactly-once over a whole history are not decided. The bounds stored for re-imposition after a back-jump equal the bounds imposed when an atom is delayed, started or ended. lra_theory::set imposes both bounds; the rule pack of C15 (arithmetic of the bounds) is evaluated here too.',
             'Analysed in configuration F only (the executor is not part of the pinned build).', 'DESIGN.md 4 C19'),
     'C20': ('structural comparison of the PARALLELIZE build with the sequential build (function inventory, task body == sequential loop body modulo lock_guard), RAII lockset analysis of the task, capture / store privacy rules, CFG must-pass of join(), mutex-sizing pairing, monitor protocol of thread_pool',
             'Static (PARALLELIZE=ON configurations P_par and F against the pinned P): the only code that differs between the builds is pivot / new_var / the copy constructor and the pool; each pivot task executes exactly the statements of the sequential row update; '
